@@ -61,9 +61,31 @@ def _is_accessor(g: FuncInfo) -> bool:
     return names <= {me, "bool", "len", "int", "float"} and sum(1 for _ in ast.walk(body[0].value)) <= 12
 
 
+_REVIEWED: Optional[frozenset] = None
+
+
+def _reviewed() -> frozenset:
+    """Qualified names of the functions of the reviewed tree (reference/functions.json.gz)."""
+    global _REVIEWED
+    if _REVIEWED is None:
+        import gzip
+        import json
+        from pathlib import Path
+
+        p = Path(__file__).resolve().parent.parent / "reference" / "functions.json.gz"
+        try:
+            _REVIEWED = frozenset(json.loads(gzip.open(p).read()))
+        except Exception:
+            _REVIEWED = frozenset()
+    return _REVIEWED
+
+
 def default_policy(g: FuncInfo) -> bool:
     if _is_accessor(g):
         return True
+    rv = _reviewed()
+    if rv and g.outer is None and g.qual not in rv and not (g.name.startswith("__") and g.name.endswith("__")) and g.kind in ("function", "method", "staticmethod", "classmethod"):
+        return True  # introduced after the review: a helper of its callers whatever its name
     return g.name.startswith("_") and not (g.name.startswith("__") and g.name.endswith("__"))
 
 
